@@ -8,6 +8,7 @@ import (
 	"math/bits"
 	"math/rand/v2"
 	"strings"
+	"sync"
 	"unicode"
 
 	"github.com/TheManticoreProject/Manticore/crypto/ntlmv1"
@@ -732,6 +733,45 @@ func anchors() {
 	}
 }
 
+// concurrentCallers: the response functions are pure, so unrelated callers on different
+// goroutines must get the same values as a single caller (no shared scratch state).
+func concurrentCallers() {
+	var wg sync.WaitGroup
+	G := 8
+	per := r.Pick(1500, 20000)
+	for g := 0; g < G; g++ {
+		wg.Add(1)
+		go func(g int) {
+			defer wg.Done()
+			rng := r.Rand(fmt.Sprintf("concurrent|%d", g))
+			for i := 0; i < per; i++ {
+				k7 := make([]byte, 7)
+				for j := range k7 {
+					k7[j] = byte(rng.UintN(256))
+				}
+				checkParityAdjust(k7, "concurrent")
+				var nt [16]byte
+				for j := range nt {
+					nt[j] = byte(rng.UintN(256))
+				}
+				sc := make([]byte, 8)
+				for j := range sc {
+					sc[j] = byte(rng.UintN(256))
+				}
+				ntlmv1Case("", false, nt, sc, i%3, callOrders[i%len(callOrders)], fmt.Sprintf("v1|concurrent|%d", g))
+				if i%8 == 0 {
+					var s8, c8 [8]byte
+					copy(s8[:], sc)
+					copy(c8[:], k7)
+					ntlmv2Case(fixedUsers[i%len(fixedUsers)], fixedDomains[(i/3)%len(fixedDomains)], fixedPasswords[i%len(fixedPasswords)], s8, c8, "c", "c")
+				}
+			}
+		}(g)
+	}
+	wg.Wait()
+	r.Count("concurrent_caller_goroutines", G)
+}
+
 func main() {
 	r = mon.Start("C02", "exploration")
 	r.Rule("ParityBit on all 256 byte values and ParityAdjust on every 7-bit group value at each of the 8 group positions over three backgrounds are enumerated completely (exhaustive sub-domains); the rest is sampled: NTLMv1 responses from passwords and raw NT hashes through Hash/String/NTResponse/LMResponse in several call orders and memory layouts, NTLMv2 through NewNTLMv2/Hash/HashHex/ToHashcatString, AUTHENTICATE messages of ntlm.CreateAuthenticateMessage with/without EXTENDED_SESSIONSECURITY, Unicode/OEM, VERSION, target info. Non-trivial: a distinct (entry point, case class of user, case class of domain, script of user, script of domain) with a non-empty domain containing a cased letter; a distinct NTLMv1 (credential kind, length/hash prefix, challenge, layout) tuple; a distinct parity group case.")
@@ -751,5 +791,6 @@ func main() {
 	ntlmv1All()
 	ntlmv2All()
 	authAll()
+	concurrentCallers()
 	r.Finish()
 }
